@@ -206,6 +206,12 @@ Proof.
     + destruct (String.eqb_spec k k0) as [E|N]; [subst; rewrite P0 in *; exact IH|exact IH].
 Qed.
 
+Lemma aget_none_iff : forall {T} k (l : list (string * T)), aget k l = None -> ~ In k (map fst l).
+Proof.
+  intros T k l. induction l as [|[k0 v0] r IH]; cbn [aget map fst In]; intros H; [tauto|].
+  destruct (String.eqb_spec k k0) as [E|N]; [discriminate H|]. intros [E|I]; [congruence|]. exact (IH H I).
+Qed.
+
 Lemma NoDup_fst_NoDup : forall {T} (l : list (string * T)), NoDup (map fst l) -> NoDup l.
 Proof.
   intros T l. induction l as [|x r IH]; intros H; [constructor|].
@@ -726,6 +732,7 @@ Proof.
     + exact H.
   - cbn [gv_of_json is_empty_any]. destruct (String.eqb_spec jtok ""); [contradiction|reflexivity].
   - cbn [is_empty_any] in *. destruct l; [discriminate H|reflexivity].
+  - reflexivity.
 Qed.
 
 Definition adj_schema : list string := ["with"; "skip"].
@@ -840,3 +847,1356 @@ Proof.
     + destruct (setup_sort l) as [E1 E2]. split; [rewrite E1; exact ML|].
       cbn [su_anon]. exact E2.
 Qed.
+
+Lemma rem_empty_reflect : forall ol rem schema,
+  inline_friendly (compact ol) [] = inline_friendly (compact ol) rem ->
+  (forall k, In k (map fst ol) -> In k schema) -> rem_ok schema rem -> rem = [].
+Proof.
+  intros ol rem schema E Hs (Nr & Av & _). destruct rem as [|[k v] t]; [reflexivity|]. exfalso.
+  assert (I : In k (map fst (members (inline_friendly (compact ol) ((k, v) :: t))))).
+  { apply inline_friendly_keys. right. left. reflexivity. }
+  rewrite <- E in I. apply inline_friendly_keys in I. destruct I as [I|[]].
+  apply compact_keys in I. apply (Av k (Hs k I)). left. reflexivity.
+Qed.
+
+Definition matrix_ol (m : matrix) : list (string * option json) :=
+  [("setup", Some (mj_setup (mx_setup m)));
+   ("adjustments", match mx_adj m with [] => None | _ => Some (JArr (map mj_adj (mx_adj m))) end)].
+
+Lemma mj_matrix_eq : forall m, mx_simple m = None ->
+  mj_matrix m = inline_friendly (compact (matrix_ol m)) (mx_rem m).
+Proof. intros m S. unfold mj_matrix, matrix_ol. rewrite S. destruct (mx_adj m); reflexivity. Qed.
+
+Lemma matrix_reobj : forall o1 o2 rem, rem_ok matrix_schema rem ->
+  let ol := [("setup", o1); ("adjustments", o2)] in
+  let p := partition_keys struct_Matrix (gmap (members (inline_friendly (compact ol) rem))) in
+  field "Setup" p = option_map gv_of_json o1 /\ field "Adjustments" p = option_map gv_of_json o2 /\
+  inline_friendly (compact ol) (leftover p) = inline_friendly (compact ol) rem.
+Proof.
+  intros o1 o2 rem R ol p.
+  assert (Nol : NoDup (map fst ol)) by (apply nodupb_sound; reflexivity).
+  unfold p. rewrite f_mx_setup, f_mx_adj. cbn [first_key].
+  rewrite !(reobj_schema_get ol rem matrix_schema) by (first [assumption|unfold matrix_schema; in_lit]).
+  split; [destruct o1; reflexivity|]. split; [destruct o2; reflexivity|].
+  apply (noalias_fix _ ol rem matrix_schema); try assumption.
+  intros pk al Hin. rewrite kt_matrix in Hin. ktab_cases Hin; (split; [unfold matrix_schema; in_lit|reflexivity]).
+Qed.
+
+Lemma map_eq_nil_iff : forall {A B} (f : A -> B) l l', map f l' = map f l -> (l' = [] <-> l = []).
+Proof. intros A B f l l' H. destruct l, l'; try discriminate H; split; intros; congruence. Qed.
+
+Theorem matrix_roundtrip : forall m, matrix_fix_ok m ->
+  exists m', unm_matrix (gv_of_json (mj_matrix m)) = Ok (Some m') 0 /\ mj_matrix m' = mj_matrix m.
+Proof.
+  intros m (HS & HA & R). destruct (mx_simple m) as [vs|] eqn:S.
+  - unfold mj_matrix. rewrite S. rewrite mx_simple_eq in S.
+    destruct (mx_adj m); [|discriminate S]. destruct (mx_rem m); [|discriminate S].
+    destruct (mx_setup m) as [l|]; [|discriminate S]. cbn [su_anon] in S.
+    destruct (setup_anon_cons _ _ S) as (x & r & -> & _).
+    exists (mkMx (Some [("", Some (x :: r))]) [] []).
+    unfold jstrs. rewrite gv_of_json_arr. cbn [unm_matrix]. rewrite mapM_strs, bind_ret_l.
+    split; reflexivity.
+  - rewrite (mj_matrix_eq m S). rewrite inline_friendly_members, gv_of_json_obj. cbn [unm_matrix]. cbv zeta.
+    pose proof (matrix_reobj (Some (mj_setup (mx_setup m)))
+                  (match mx_adj m with [] => None | _ => Some (JArr (map mj_adj (mx_adj m))) end) _ R) as X.
+    cbv zeta in X. fold (matrix_ol m) in X. destruct X as (F1 & F2 & FL).
+    set (p := partition_keys struct_Matrix
+                (gmap (members (inline_friendly (compact (matrix_ol m)) (mx_rem m))))) in *.
+    rewrite F1. cbn [option_map].
+    destruct (setup_roundtrip _ HS) as (su' & E1 & E2 & E3). rewrite E1, bind_ret_l.
+    assert (A : exists adj', opt_field "Adjustments" p [] unm_adjs = Ok adj' 0 /\
+                             map mj_adj adj' = map mj_adj (mx_adj m)).
+    { destruct (mx_adj m) as [|a0 r0] eqn:EA; cbn [option_map] in F2.
+      - rewrite (opt_field_none _ _ _ _ F2). exists []. split; reflexivity.
+      - rewrite (opt_field_some _ _ _ _ _ F2). rewrite gv_of_json_arr. cbn [unm_adjs].
+        apply (mapM_roundtrip unm_adj mj_adj adj_fix_ok adj_roundtrip). exact HA. }
+    destruct A as (adj' & E4 & E5). rewrite E4, bind_ret_l.
+    eexists. split; [reflexivity|].
+    assert (EO : matrix_ol (mkMx su' adj' (leftover p)) = matrix_ol m).
+    { unfold matrix_ol. cbn [mx_setup mx_adj]. rewrite E2.
+      pose proof (map_eq_nil_iff _ _ _ E5) as N.
+      destruct adj' as [|a1 r1], (mx_adj m) as [|a0 r0]; try reflexivity.
+      - exfalso. destruct N as [N _]. specialize (N eq_refl). discriminate N.
+      - exfalso. destruct N as [_ N]. specialize (N eq_refl). discriminate N.
+      - rewrite E5. reflexivity. }
+    assert (S' : mx_simple (mkMx su' adj' (leftover p)) = None).
+    { rewrite mx_simple_eq. cbn [mx_setup mx_adj mx_rem].
+      destruct adj' as [|a1 r1]; [|reflexivity]. destruct (leftover p) eqn:EL; [|reflexivity].
+      rewrite E3. rewrite mx_simple_eq in S.
+      assert (EA : mx_adj m = []) by (apply (map_eq_nil_iff _ _ _ E5); reflexivity).
+      assert (ER : mx_rem m = []).
+      { apply (rem_empty_reflect (matrix_ol m) _ matrix_schema); [exact FL| |exact R].
+        intros k I. unfold matrix_ol in I. cbn [map fst] in I. exact I. }
+      rewrite EA, ER in S. exact S. }
+    rewrite (mj_matrix_eq _ S'). cbn [mx_rem]. rewrite EO. exact FL.
+Qed.
+
+(** ------------------------------------------------------------------ *)
+(** * 8. Plugins *)
+
+(* values without ordered maps: what ToMapRecursive produces *)
+Fixpoint no_gmap (g : gv) : Prop :=
+  match g with
+  | GMap _ => False
+  | GSeq l => (fix go (l : list gv) : Prop := match l with [] => True | x :: r => no_gmap x /\ go r end) l
+  | GUMap l => (fix go (l : list (string * gv)) : Prop :=
+                  match l with [] => True | kv :: r => no_gmap (snd kv) /\ go r end) l
+  | _ => True
+  end.
+
+Lemma no_gmap_seq : forall l, no_gmap (GSeq l) <-> Forall no_gmap l.
+Proof.
+  induction l as [|x r IH]; [split; intros; [constructor|exact I]|].
+  change (no_gmap (GSeq (x :: r))) with (no_gmap x /\ no_gmap (GSeq r)). rewrite IH. split.
+  - intros [A B]. constructor; assumption.
+  - intros H. inversion H; subst. split; assumption.
+Qed.
+Lemma no_gmap_umap : forall l, no_gmap (GUMap l) <-> Forall (fun kv => no_gmap (snd kv)) l.
+Proof.
+  induction l as [|x r IH]; [split; intros; [constructor|exact I]|].
+  change (no_gmap (GUMap (x :: r))) with (no_gmap (snd x) /\ no_gmap (GUMap r)). rewrite IH. split.
+  - intros [A B]. constructor; assumption.
+  - intros H. inversion H; subst. split; assumption.
+Qed.
+
+Lemma val_stable_seq : forall l, val_stable (GSeq l) <-> Forall val_stable l.
+Proof.
+  intros l. unfold val_stable. rewrite gv_json_seq, json_stable_arr, Forall_map. reflexivity.
+Qed.
+Lemma val_stable_map : forall l, val_stable (GMap l) <-> vals_stable l.
+Proof.
+  intros l. unfold val_stable, vals_stable. rewrite gv_json_map, json_stable_obj. unfold jmap.
+  rewrite Forall_map. reflexivity.
+Qed.
+Lemma val_stable_umap : forall l, val_stable (GUMap l) <-> vals_stable l.
+Proof.
+  intros l. unfold val_stable, vals_stable. rewrite gv_json_umap, json_stable_obj.
+  assert (P : Permutation (sort_keys (jmap l)) (jmap l)) by apply sort_keys_perm.
+  split; intros H.
+  - apply (Permutation_Forall P) in H. unfold jmap in H. rewrite Forall_map in H. exact H.
+  - apply (Permutation_Forall (Permutation_sym P)). unfold jmap. rewrite Forall_map. exact H.
+Qed.
+
+(* with to_map_recursive for plugin configs *)
+Theorem plugin_config_roundtrip : forall c, no_gmap c -> val_stable c ->
+  gv_json (to_map_recursive (gv_of_json (gv_json c))) = gv_json c.
+Proof.
+  induction c using gv_ind'; intros NG VS; try reflexivity.
+  - cbn [gv_json]. rewrite gv_of_json_int. reflexivity.
+  - unfold val_stable in VS. cbn [gv_json json_stable] in *.
+    destruct (num_stable_cases _ VS) as [(z & E & Z)|E]; rewrite E; cbn [to_map_recursive gv_json]; congruence.
+  - rewrite gv_json_seq, gv_of_json_arr. cbn [to_map_recursive]. rewrite gv_json_seq. f_equal.
+    apply no_gmap_seq in NG. apply val_stable_seq in VS. rewrite !map_map.
+    apply map_ext_in. intros x Hx. rewrite Forall_forall in H, NG, VS. apply H; auto.
+  - destruct NG.
+  - rewrite gv_json_umap, gv_of_json_obj. cbn [to_map_recursive]. rewrite gv_json_umap. f_equal.
+    apply no_gmap_umap in NG. apply val_stable_umap in VS.
+    unfold jmap at 1, gmap. rewrite !map_map. cbn [fst snd].
+    rewrite (sort_keys_map (fun j => gv_json (to_map_recursive (gv_of_json j))) (sort_keys (jmap l))).
+    rewrite sort_keys_idem.
+    rewrite <- (sort_keys_map (fun j => gv_json (to_map_recursive (gv_of_json j))) (jmap l)).
+    f_equal. unfold jmap. rewrite map_map. cbn [fst snd]. apply map_ext_in. intros [k v] Hx. cbn [fst snd].
+    unfold vals_stable in VS. rewrite Forall_forall in H, NG, VS. f_equal.
+    apply (H (k, v) Hx); [apply (NG (k, v) Hx)|apply (VS (k, v) Hx)].
+Qed.
+
+Definition plugin_cfg (c : gv) : json :=
+  match c with
+  | GUMap [] => JNull
+  | GSeq [] => JNull
+  | c => gv_json c
+  end.
+
+Lemma mj_plugin_eq : forall p, mj_plugin p = JObj [(full_source (pl_source p), plugin_cfg (pl_config p))].
+Proof. intros p. unfold mj_plugin, plugin_cfg. destruct (pl_config p) as [| | | | | |[|]| |[|]]; reflexivity. Qed.
+
+Lemma plugin_cfg_spec : forall c,
+  plugin_cfg c = gv_json c \/ (plugin_cfg c = JNull /\ (c = GUMap [] \/ c = GSeq [])).
+Proof. intros c. destruct c as [| | | | | |[|]| |[|]]; auto. Qed.
+
+Lemma gv_json_obj_nil : forall c, gv_json c = JObj [] -> c = GMap [] \/ c = GUMap [].
+Proof.
+  intros c H. destruct c; try discriminate H.
+  - destruct l; [left; reflexivity|discriminate H].
+  - cbn [gv_json] in H. injection H as H. apply (f_equal (@length _)) in H.
+    rewrite sort_keys_length, map_length in H. destruct l; [right; reflexivity|discriminate H].
+Qed.
+Lemma gv_json_arr_nil : forall c, gv_json c = JArr [] -> c = GSeq [].
+Proof.
+  intros c H. destruct c; try discriminate H. destruct l; [reflexivity|discriminate H].
+Qed.
+
+Lemma cfg_roundtrip : forall c, no_gmap c -> val_stable c ->
+  plugin_cfg (to_map_recursive (gv_of_json (plugin_cfg c))) = plugin_cfg c.
+Proof.
+  intros c NG VS. destruct (plugin_cfg_spec c) as [E|[E _]]; [|rewrite E; reflexivity].
+  rewrite E. pose proof (plugin_config_roundtrip c NG VS) as R.
+  destruct (plugin_cfg_spec (to_map_recursive (gv_of_json (gv_json c)))) as [E'|[E' [C|C]]].
+  - rewrite E'. exact R.
+  - rewrite C in R. cbn [gv_json jmap map sort_keys fold_right] in R. symmetry in R.
+    apply gv_json_obj_nil in R. destruct R as [R|R]; subst c; [destruct NG|discriminate E].
+  - rewrite C in R. cbn [gv_json map] in R. symmetry in R.
+    apply gv_json_arr_nil in R. subst c. discriminate E.
+Qed.
+
+(* a plugin whose canonical source is a fixpoint of canonicalisation and whose config is a
+   stable ToMapRecursive value *)
+Definition plugin_fix_ok (p : plugin) : Prop :=
+  full_source (full_source (pl_source p)) = full_source (pl_source p) /\
+  no_gmap (pl_config p) /\ val_stable (pl_config p).
+
+Definition reparse_plugin (p : plugin) : plugin :=
+  mkPlugin (full_source (pl_source p)) (to_map_recursive (gv_of_json (plugin_cfg (pl_config p)))).
+
+Lemma reparse_plugin_fix : forall p, plugin_fix_ok p -> mj_plugin (reparse_plugin p) = mj_plugin p.
+Proof.
+  intros p (S & NG & VS). rewrite !mj_plugin_eq. unfold reparse_plugin. cbn [pl_source pl_config].
+  rewrite S, cfg_roundtrip by assumption. reflexivity.
+Qed.
+
+Lemma concat_singletons : forall {A B} (f : A -> B) l, concat (map (fun x => [f x]) l) = map f l.
+Proof. intros A B f l. induction l as [|x r IH]; [reflexivity|]. cbn [map concat app]. rewrite IH. reflexivity. Qed.
+
+Theorem plugins_roundtrip : forall ps, Forall plugin_fix_ok ps ->
+  exists ps', unm_plugins (gv_of_json (JArr (map mj_plugin ps))) = Ok ps' 0 /\ map mj_plugin ps' = map mj_plugin ps.
+Proof.
+  intros ps H. exists (map reparse_plugin ps). split.
+  - rewrite gv_of_json_arr. cbn [unm_plugins]. rewrite map_map.
+    rewrite (mapM_map_ok0 _ _ (fun p => [reparse_plugin p])); [|intros p _; rewrite mj_plugin_eq; reflexivity].
+    rewrite bind_ret_l. unfold ret. rewrite concat_singletons. reflexivity.
+  - rewrite map_map. apply map_ext_in. intros p Hp. rewrite Forall_forall in H.
+    apply reparse_plugin_fix. apply H. exact Hp.
+Qed.
+
+(** ------------------------------------------------------------------ *)
+(** * 9. Command steps *)
+
+Definition ne_opt {A} (l : list A) (j : json) : option json := match l with [] => None | _ => Some j end.
+
+Lemma ne_opt_eq : forall {A B} (l' : list A) (l : list B) j, (l' = [] <-> l = []) -> ne_opt l' j = ne_opt l j.
+Proof.
+  intros A B l' l j [H1 H2]. destruct l', l; try reflexivity.
+  - specialize (H1 eq_refl). discriminate H1.
+  - specialize (H2 eq_refl). discriminate H2.
+Qed.
+
+Definition cmd_primary : list string :=
+  ["commands"; "command"; "key"; "label"; "plugins"; "env"; "signature"; "matrix"; "cache"].
+
+(* a command step that re-reads to itself *)
+Definition cmd_ok (c : command_step) : Prop :=
+  rem_ok cmd_primary (cs_rem c) /\
+  (cs_key c = "" -> ~ In "id" (map fst (cs_rem c)) /\ ~ In "identifier" (map fst (cs_rem c))) /\
+  (cs_label c = "" -> ~ In "name" (map fst (cs_rem c))) /\
+  Forall plugin_fix_ok (cs_plugins c) /\
+  match cs_matrix c with Some m => matrix_fix_ok m | None => True end /\
+  match cs_cache c with Some x => cache_fix_ok x | None => True end.
+
+Definition str_opt (s : string) : option json := if String.eqb s "" then None else Some (JStr s).
+
+Definition cmd_ol (c : command_step) : list (string * option json) :=
+  [("key", str_opt (cs_key c));
+   ("label", str_opt (cs_label c));
+   ("command", Some (JStr (cs_command c)));
+   ("plugins", ne_opt (cs_plugins c) (JArr (map mj_plugin (cs_plugins c))));
+   ("env", ne_opt (cs_env c) (mj_map_ss (cs_env c)));
+   ("signature", option_map mj_sig (cs_sig c));
+   ("matrix", option_map mj_matrix (cs_matrix c));
+   ("cache", option_map mj_cache (cs_cache c))].
+
+Lemma mj_command_ol : forall c, mj_command c = inline_friendly (compact (cmd_ol c)) (cs_rem c).
+Proof.
+  intros c. unfold mj_command, cmd_ol, str_opt, ne_opt.
+  destruct (String.eqb (cs_key c) ""), (String.eqb (cs_label c) ""), (cs_plugins c), (cs_env c),
+    (cs_sig c), (cs_matrix c), (cs_cache c); reflexivity.
+Qed.
+
+Lemma outer_consumed : forall m v, aget "commands" m = None -> aget "command" m = Some v ->
+  DecodeProofs.consumed (partition_keys struct_CommandStep_UnmarshalOrdered_anon0 m) = ["command"].
+Proof.
+  intros m v H1 H2. unfold DecodeProofs.consumed. rewrite partition_assigned.
+  unfold asg. cbv - [aget]. rewrite H1, H2. reflexivity.
+Qed.
+
+Lemma filter_filter' : forall {A} (f g : A -> bool) l,
+  filter f (filter g l) = filter (fun x => g x && f x) l.
+Proof.
+  intros A f g l. induction l as [|x r IH]; [reflexivity|]. cbn [filter].
+  destruct (g x); cbn [filter andb]; [destruct (f x); rewrite IH; reflexivity|exact IH].
+Qed.
+
+Lemma cmd_reobj : forall o1 o2 j3 o4 o5 o6 o7 o8 rem,
+  rem_ok cmd_primary rem ->
+  (o1 = None -> ~ In "id" (map fst rem) /\ ~ In "identifier" (map fst rem)) ->
+  (o2 = None -> ~ In "name" (map fst rem)) ->
+  let ol := [("key", o1); ("label", o2); ("command", Some j3); ("plugins", o4); ("env", o5);
+             ("signature", o6); ("matrix", o7); ("cache", o8)] in
+  let m := gmap (members (inline_friendly (compact ol) rem)) in
+  let outer := partition_keys struct_CommandStep_UnmarshalOrdered_anon0 m in
+  let p := partition_keys struct_CommandStep (leftover outer) in
+  field "Commands" outer = Some (gv_of_json j3) /\
+  field "Key" p = option_map gv_of_json o1 /\ field "Label" p = option_map gv_of_json o2 /\
+  field "Command" p = None /\ field "Plugins" p = option_map gv_of_json o4 /\
+  field "Env" p = option_map gv_of_json o5 /\ field "Signature" p = option_map gv_of_json o6 /\
+  field "Matrix" p = option_map gv_of_json o7 /\ field "Cache" p = option_map gv_of_json o8 /\
+  inline_friendly (compact ol) (leftover p) = inline_friendly (compact ol) rem.
+Proof.
+  intros o1 o2 j3 o4 o5 o6 o7 o8 rem R A1 A2 ol m outer p.
+  assert (Nol : NoDup (map fst ol)) by (apply nodupb_sound; reflexivity).
+  pose proof R as (Nr & Av & Vs).
+  assert (G : forall k, In k cmd_primary ->
+            aget k m = match aget k ol with Some (Some j) => Some (gv_of_json j) | _ => None end).
+  { intros k I. apply (reobj_schema_get ol rem cmd_primary); assumption. }
+  assert (C1 : aget "commands" m = None) by (rewrite G by (unfold cmd_primary; in_lit); reflexivity).
+  assert (C2 : aget "command" m = Some (gv_of_json j3)) by (rewrite G by (unfold cmd_primary; in_lit); reflexivity).
+  assert (CO : DecodeProofs.consumed outer = ["command"]) by (eapply outer_consumed; eassumption).
+  assert (M2 : forall k, aget k (leftover outer) = if String.eqb k "command" then None else aget k m).
+  { intros k. unfold outer. rewrite aget_leftover. fold outer. rewrite CO. cbn [existsb].
+    rewrite orb_false_r. destruct (String.eqb k "command"); reflexivity. }
+  assert (Gid : aget "id" m = option_map (fun v => gv_of_json (gv_json v)) (aget "id" rem)).
+  { unfold m. rewrite reobj_get by assumption. reflexivity. }
+  assert (Gidf : aget "identifier" m = option_map (fun v => gv_of_json (gv_json v)) (aget "identifier" rem)).
+  { unfold m. rewrite reobj_get by assumption. reflexivity. }
+  assert (Gname : aget "name" m = option_map (fun v => gv_of_json (gv_json v)) (aget "name" rem)).
+  { unfold m. rewrite reobj_get by assumption. reflexivity. }
+  split. { unfold outer. rewrite f_outer_commands. cbn [first_key]. rewrite C1, C2. reflexivity. }
+  unfold p. rewrite f_cmd_key, f_cmd_label, f_cmd_command, f_cmd_plugins, f_cmd_env, f_cmd_sig, f_cmd_matrix, f_cmd_cache.
+  cbn [first_key]. rewrite !M2. cbn [String.eqb Ascii.eqb Bool.eqb].
+  rewrite (G "key"), (G "label"), (G "plugins"), (G "env"), (G "signature"), (G "matrix"), (G "cache")
+    by (unfold cmd_primary; in_lit).
+  split.
+  { destruct o1 as [j|]; [reflexivity|]. cbn [aget ol String.eqb Ascii.eqb Bool.eqb].
+    destruct (A1 eq_refl) as [X Y]. rewrite Gid, Gidf, (aget_none _ _ X), (aget_none _ _ Y). reflexivity. }
+  split.
+  { destruct o2 as [j|]; [reflexivity|]. cbn [aget ol String.eqb Ascii.eqb Bool.eqb].
+    rewrite Gname, (aget_none _ _ (A2 eq_refl)). reflexivity. }
+  split; [reflexivity|].
+  split; [destruct o4; reflexivity|]. split; [destruct o5; reflexivity|]. split; [destruct o6; reflexivity|].
+  split; [destruct o7; reflexivity|]. split; [destruct o8; reflexivity|].
+  rewrite leftover_spec. unfold outer at 2. rewrite leftover_spec. fold m. fold outer.
+  rewrite filter_filter'.
+  apply (reobj_fix (compact ol) rem
+           (fun k => negb (existsb (String.eqb k) (DecodeProofs.consumed outer)) &&
+                     negb (existsb (String.eqb k) (DecodeProofs.consumed
+                             (partition_keys struct_CommandStep (leftover outer)))))); try assumption.
+  - apply compact_nodup. exact Nol.
+  - intros k Hk. apply andb_false_iff in Hk. destruct Hk as [Hk|Hk].
+    + rewrite CO in Hk. cbn [existsb] in Hk. rewrite orb_false_r in Hk. apply negb_false_iff in Hk.
+      apply String.eqb_eq in Hk. subst k. apply Av. unfold cmd_primary. in_lit.
+    + revert k Hk. apply consumed_not_in_rem. intros pk al Hin. rewrite kt_cmd in Hin.
+      ktab_cases Hin; (split; [apply Av; unfold cmd_primary; in_lit|]); try solve [intros ? []].
+      * intros al0 Ha Hn. rewrite M2 in Hn. cbn [String.eqb Ascii.eqb Bool.eqb] in Hn.
+        rewrite G in Hn by (unfold cmd_primary; in_lit). cbn [aget ol String.eqb Ascii.eqb Bool.eqb] in Hn.
+        destruct o1 as [j|]; [discriminate Hn|]. destruct (A1 eq_refl) as [X Y].
+        cbn [In] in Ha. destruct Ha as [<-|[<-|[]]]; assumption.
+      * intros al0 Ha Hn. rewrite M2 in Hn. cbn [String.eqb Ascii.eqb Bool.eqb] in Hn.
+        rewrite G in Hn by (unfold cmd_primary; in_lit). cbn [aget ol String.eqb Ascii.eqb Bool.eqb] in Hn.
+        destruct o2 as [j|]; [discriminate Hn|].
+        cbn [In] in Ha. destruct Ha as [<-|[]]. apply A2. reflexivity.
+Qed.
+
+Lemma unm_map_ss_roundtrip : forall l, unm_map_ss (gv_of_json (mj_map_ss l)) = Ok (sort_keys l) 0.
+Proof.
+  intros l. unfold mj_map_ss. rewrite gv_of_json_obj. cbn [unm_map_ss].
+  rewrite (sort_keys_map (fun v => JStr v) l). unfold gmap. rewrite map_map. cbn [fst snd gv_of_json].
+  rewrite (mapM_map_ok0 _ _ (fun kv => kv)); [rewrite map_id; reflexivity|].
+  intros [k v] _. reflexivity.
+Qed.
+
+Lemma sort_keys_nil_iff : forall {T} (l : list (string * T)), sort_keys l = [] <-> l = [].
+Proof.
+  intros T l. pose proof (sort_keys_length l) as Len. split; intros H.
+  - rewrite H in Len. destruct l; [reflexivity|discriminate Len].
+  - subst. reflexivity.
+Qed.
+
+Theorem command_roundtrip : forall c, cmd_ok c ->
+  exists c', unm_command (gmap (members (mj_command c))) = Ok c' 0 /\ mj_command c' = mj_command c.
+Proof.
+  intros c (R & A1 & A2 & HP & HM & HC).
+  rewrite (mj_command_ol c).
+  assert (A1' : str_opt (cs_key c) = None -> ~ In "id" (map fst (cs_rem c)) /\ ~ In "identifier" (map fst (cs_rem c))).
+  { unfold str_opt. destruct (String.eqb_spec (cs_key c) ""); [intros _; apply A1; assumption|discriminate]. }
+  assert (A2' : str_opt (cs_label c) = None -> ~ In "name" (map fst (cs_rem c))).
+  { unfold str_opt. destruct (String.eqb_spec (cs_label c) ""); [intros _; apply A2; assumption|discriminate]. }
+  pose proof (cmd_reobj (str_opt (cs_key c)) (str_opt (cs_label c)) (JStr (cs_command c))
+                (ne_opt (cs_plugins c) (JArr (map mj_plugin (cs_plugins c))))
+                (ne_opt (cs_env c) (mj_map_ss (cs_env c)))
+                (option_map mj_sig (cs_sig c)) (option_map mj_matrix (cs_matrix c))
+                (option_map mj_cache (cs_cache c)) (cs_rem c) R A1' A2') as X.
+  cbv zeta in X. fold (cmd_ol c) in X.
+  destruct X as (F0 & F1 & F2 & F3 & F4 & F5 & F6 & F7 & F8 & FL).
+  unfold unm_command. cbv zeta.
+  set (m := gmap (members (inline_friendly (compact (cmd_ol c)) (cs_rem c)))) in *.
+  set (outer := partition_keys struct_CommandStep_UnmarshalOrdered_anon0 m) in *.
+  set (p := partition_keys struct_CommandStep (leftover outer)) in *.
+  rewrite (opt_field_some _ _ _ _ _ F0).
+  change (unm_strings (gv_of_json (JStr (cs_command c)))) with (Ok (Some [cs_command c]) 0).
+  rewrite bind_ret_l.
+  rewrite (opt_str_field _ _ _ F1), bind_ret_l. rewrite (opt_str_field _ _ _ F2), bind_ret_l.
+  rewrite (opt_field_none _ _ _ _ F3). unfold ret at 1. rewrite bind_ret_l.
+  assert (P : exists ps', opt_field "Plugins" p [] unm_plugins = Ok ps' 0 /\
+                          map mj_plugin ps' = map mj_plugin (cs_plugins c)).
+  { destruct (cs_plugins c) as [|p0 r0] eqn:EP; cbn [ne_opt option_map] in F4.
+    - rewrite (opt_field_none _ _ _ _ F4). exists []. split; reflexivity.
+    - rewrite (opt_field_some _ _ _ _ _ F4). apply plugins_roundtrip. exact HP. }
+  destruct P as (ps' & EP1 & EP2). rewrite EP1, bind_ret_l.
+  assert (E : opt_field "Env" p [] unm_map_ss = Ok (sort_keys (cs_env c)) 0).
+  { destruct (cs_env c) as [|e0 r0] eqn:EE; cbn [ne_opt option_map] in F5.
+    - rewrite (opt_field_none _ _ _ _ F5). reflexivity.
+    - rewrite (opt_field_some _ _ _ _ _ F5). apply unm_map_ss_roundtrip. }
+  rewrite E, bind_ret_l.
+  assert (S : opt_field "Signature" p None unm_sig = Ok (cs_sig c) 0).
+  { destruct (cs_sig c) as [s|]; cbn [option_map] in F6.
+    - rewrite (opt_field_some _ _ _ _ _ F6). apply sig_roundtrip.
+    - rewrite (opt_field_none _ _ _ _ F6). reflexivity. }
+  rewrite S, bind_ret_l.
+  assert (M : exists mx', opt_field "Matrix" p None unm_matrix = Ok mx' 0 /\
+                          option_map mj_matrix mx' = option_map mj_matrix (cs_matrix c)).
+  { destruct (cs_matrix c) as [mx|]; cbn [option_map] in F7.
+    - rewrite (opt_field_some _ _ _ _ _ F7). destruct (matrix_roundtrip mx HM) as (mx' & E1 & E2).
+      exists (Some mx'). split; [exact E1|]. cbn [option_map]. rewrite E2. reflexivity.
+    - rewrite (opt_field_none _ _ _ _ F7). exists None. split; reflexivity. }
+  destruct M as (mx' & EM1 & EM2). rewrite EM1, bind_ret_l.
+  assert (C : exists ca', opt_field "Cache" p None unm_cache = Ok ca' 0 /\
+                          option_map mj_cache ca' = option_map mj_cache (cs_cache c)).
+  { destruct (cs_cache c) as [ca|]; cbn [option_map] in F8.
+    - rewrite (opt_field_some _ _ _ _ _ F8). destruct (cache_roundtrip ca HC) as (ca' & E1 & E2).
+      exists (Some ca'). split; [exact E1|]. cbn [option_map]. rewrite E2. reflexivity.
+    - rewrite (opt_field_none _ _ _ _ F8). exists None. split; reflexivity. }
+  destruct C as (ca' & EC1 & EC2). rewrite EC1, bind_ret_l.
+  eexists. split; [reflexivity|].
+  rewrite mj_command_ol. cbn [cs_rem].
+  match goal with |- inline_friendly (compact ?o) _ = _ => assert (EO : o = cmd_ol c) end.
+  { unfold cmd_ol. cbn [cs_key cs_label cs_command cs_plugins cs_env cs_sig cs_matrix cs_cache].
+    rewrite EP2, EM2, EC2, mj_map_ss_sort.
+    rewrite (ne_opt_eq ps' (cs_plugins c)) by (apply (map_eq_nil_iff _ _ _ EP2)).
+    rewrite (ne_opt_eq (sort_keys (cs_env c)) (cs_env c)) by apply sort_keys_nil_iff.
+    reflexivity. }
+  rewrite EO. exact FL.
+Qed.
+
+(** ------------------------------------------------------------------ *)
+(** * 10. Steps *)
+
+(* which kind a mapping selects: its `type` when present (a string), else key inference *)
+Definition map_kind (m : list (string * gv)) : option Kinds.kind :=
+  match aget "type" m with
+  | Some (GStr t) => Some (kind_by_type t)
+  | Some _ => None
+  | None => Some (kind_by_keys (map fst m))
+  end.
+
+Lemma unm_step_map_kind : forall f m,
+  unm_step (S f) (GMap m) =
+  match map_kind m with Some k => typed_body (unm_steps f) m k | None => Err end.
+Proof.
+  intros f m. rewrite unm_step_S. unfold step_body, map_kind.
+  destruct (aget "type" m) as [[]|]; reflexivity.
+Qed.
+
+Lemma mem_ext : forall x (l l' : list string), (forall y, In y l <-> In y l') -> Kinds.mem x l = Kinds.mem x l'.
+Proof.
+  intros x l l' H. unfold Kinds.mem. destruct (existsb (String.eqb x) l) eqn:E.
+  - symmetry. apply existsb_eqb_In. apply H. apply existsb_eqb_In. exact E.
+  - destruct (existsb (String.eqb x) l') eqn:E'; [|reflexivity].
+    apply existsb_eqb_In in E'. apply H in E'. apply existsb_eqb_In in E'. congruence.
+Qed.
+
+Lemma by_keys_ext : forall tbl keys keys' d,
+  (forall y, In y keys <-> In y keys') -> by_keys tbl keys d = by_keys tbl keys' d.
+Proof.
+  intros tbl keys keys' d H. induction tbl as [|[fam k] r IH]; [reflexivity|].
+  cbn [by_keys]. rewrite IH.
+  assert (E : existsb (fun x => Kinds.mem x keys) fam = existsb (fun x => Kinds.mem x keys') fam).
+  { induction fam as [|a t IHf]; [reflexivity|]. cbn [existsb]. rewrite IHf, (mem_ext a keys keys' H). reflexivity. }
+  rewrite E. reflexivity.
+Qed.
+
+Lemma mem_true : forall x l, In x l -> Kinds.mem x l = true.
+Proof. intros x l H. unfold Kinds.mem. apply existsb_eqb_In. exact H. Qed.
+Lemma mem_false : forall x l, ~ In x l -> Kinds.mem x l = false.
+Proof.
+  intros x l H. unfold Kinds.mem. destruct (existsb (String.eqb x) l) eqn:E; [|reflexivity].
+  apply existsb_eqb_In in E. contradiction.
+Qed.
+
+Lemma keys_command : forall keys, In "command" keys -> kind_by_keys keys = KCommand.
+Proof.
+  intros keys H. unfold kind_by_keys, families. cbn [by_keys existsb]. rewrite (mem_true _ _ H). reflexivity.
+Qed.
+
+Definition earlier_keys : list string :=
+  ["command"; "commands"; "plugins"; "wait"; "waiter"; "block"; "input"; "manual"; "trigger"].
+
+Lemma keys_group : forall keys, In "group" keys -> (forall k, In k earlier_keys -> ~ In k keys) ->
+  kind_by_keys keys = KGroup.
+Proof.
+  intros keys H N. unfold kind_by_keys, families. cbn [by_keys existsb].
+  rewrite !mem_false by (apply N; unfold earlier_keys; in_lit).
+  rewrite (mem_true _ _ H). reflexivity.
+Qed.
+
+Lemma compact_keys_in : forall ol k j, In (k, Some j) ol -> In k (map fst (compact ol)).
+Proof.
+  induction ol as [|[k0 o] r IH]; intros k j H; [destruct H|].
+  destruct H as [E|H].
+  - inversion E; subst. left. reflexivity.
+  - destruct o; [right|]; eapply IH; eassumption.
+Qed.
+
+(* the `type` member kept among the extra fields selects this kind again *)
+Definition type_selects (K : Kinds.kind) (rem : list (string * gv)) : Prop :=
+  match aget "type" rem with
+  | Some (GStr t) => kind_by_type t = K
+  | Some _ => False
+  | None => True
+  end.
+
+Lemma cmd_map_kind : forall c, cmd_ok c -> type_selects KCommand (cs_rem c) ->
+  map_kind (gmap (members (mj_command c))) = Some KCommand.
+Proof.
+  intros c (R & _) T. pose proof R as (Nr & _ & _). rewrite mj_command_ol.
+  assert (Nol : NoDup (map fst (cmd_ol c))) by (apply nodupb_sound; reflexivity).
+  unfold map_kind. rewrite reobj_get by assumption.
+  assert (E : aget "type" (cmd_ol c) = None) by reflexivity. rewrite E.
+  unfold type_selects in T. destruct (aget "type" (cs_rem c)) as [v|]; cbn [option_map].
+  - destruct v; try (exfalso; exact T). cbn [gv_json gv_of_json]. rewrite T. reflexivity.
+  - f_equal. apply keys_command. apply reobj_keys. left.
+    apply (compact_keys_in _ _ (JStr (cs_command c))). unfold cmd_ol. in_lit.
+Qed.
+
+Definition group_primary : list string := ["key"; "group"; "steps"].
+
+Definition group_selects (rem : list (string * gv)) : Prop :=
+  match aget "type" rem with
+  | Some (GStr t) => kind_by_type t = KGroup
+  | Some _ => False
+  | None => forall k, In k earlier_keys -> ~ In k (map fst rem)
+  end.
+
+Definition group_ol (k : string) (g : option string) (ss : list step) : list (string * option json) :=
+  [("key", str_opt k);
+   ("group", Some (match g with Some x => JStr x | None => JNull end));
+   ("steps", Some (JArr (map mj_step ss)))].
+
+Lemma mj_group_ol : forall k g ss rem,
+  mj_step (SGroup k g ss rem) = inline_friendly (compact (group_ol k g ss)) rem.
+Proof. intros. unfold group_ol, str_opt. cbn [mj_step]. destruct (String.eqb k ""); reflexivity. Qed.
+
+Lemma group_map_kind : forall k g ss rem, rem_ok group_primary rem -> group_selects rem ->
+  map_kind (gmap (members (inline_friendly (compact (group_ol k g ss)) rem))) = Some KGroup.
+Proof.
+  intros k g ss rem R T. pose proof R as (Nr & _ & _).
+  assert (Nol : NoDup (map fst (group_ol k g ss))) by (apply nodupb_sound; reflexivity).
+  unfold map_kind. rewrite reobj_get by assumption.
+  assert (E : aget "type" (group_ol k g ss) = None) by reflexivity. rewrite E.
+  unfold group_selects in T. destruct (aget "type" rem) as [v|]; cbn [option_map].
+  - destruct v; try (exfalso; exact T). cbn [gv_json gv_of_json]. rewrite T. reflexivity.
+  - f_equal. apply keys_group.
+    + apply reobj_keys. left. eapply compact_keys_in. unfold group_ol. right. left. reflexivity.
+    + intros x Hx I. apply reobj_keys in I. destruct I as [I|I]; [|exact (T x Hx I)].
+      apply compact_keys in I. unfold group_ol in I. cbn [map fst In] in I. unfold earlier_keys in Hx. cbn [In] in Hx.
+      repeat (destruct Hx as [<-|Hx]; [repeat (destruct I as [I|I]; [discriminate I|]); destruct I|]). destruct Hx.
+Qed.
+
+Lemma grp_reobj : forall o1 j2 j3 rem,
+  rem_ok group_primary rem ->
+  (o1 = None -> ~ In "id" (map fst rem) /\ ~ In "identifier" (map fst rem)) ->
+  let ol := [("key", o1); ("group", Some j2); ("steps", Some j3)] in
+  let m := gmap (members (inline_friendly (compact ol) rem)) in
+  let p := partition_keys struct_GroupStep m in
+  field "Key" p = option_map gv_of_json o1 /\ field "Group" p = Some (gv_of_json j2) /\
+  field "Steps" p = Some (gv_of_json j3) /\ aget "steps" m = Some (gv_of_json j3) /\
+  inline_friendly (compact ol) (leftover p) = inline_friendly (compact ol) rem.
+Proof.
+  intros o1 j2 j3 rem R A1 ol m p.
+  assert (Nol : NoDup (map fst ol)) by (apply nodupb_sound; reflexivity).
+  pose proof R as (Nr & Av & Vs).
+  assert (G : forall k, In k group_primary ->
+            aget k m = match aget k ol with Some (Some j) => Some (gv_of_json j) | _ => None end).
+  { intros k I. apply (reobj_schema_get ol rem group_primary); assumption. }
+  assert (Gid : aget "id" m = option_map (fun v => gv_of_json (gv_json v)) (aget "id" rem)).
+  { unfold m. rewrite reobj_get by assumption. reflexivity. }
+  assert (Gidf : aget "identifier" m = option_map (fun v => gv_of_json (gv_json v)) (aget "identifier" rem)).
+  { unfold m. rewrite reobj_get by assumption. reflexivity. }
+  unfold p. rewrite f_grp_key, f_grp_group, f_grp_steps. cbn [first_key].
+  rewrite (G "key"), (G "group"), (G "steps") by (unfold group_primary; in_lit).
+  split.
+  { destruct o1 as [j|]; [reflexivity|]. cbn [aget ol String.eqb Ascii.eqb Bool.eqb].
+    destruct (A1 eq_refl) as [X Y]. rewrite Gid, Gidf, (aget_none _ _ X), (aget_none _ _ Y). reflexivity. }
+  split; [reflexivity|]. split; [reflexivity|]. split; [reflexivity|].
+  rewrite leftover_spec.
+  apply (reobj_fix (compact ol) rem
+           (fun k => negb (existsb (String.eqb k) (DecodeProofs.consumed (partition_keys struct_GroupStep m)))));
+    try assumption.
+  - apply compact_nodup. exact Nol.
+  - apply consumed_not_in_rem. intros pk al Hin. rewrite kt_group in Hin.
+    ktab_cases Hin; (split; [apply Av; unfold group_primary; in_lit|]); try solve [intros ? []].
+    + intros al0 Ha Hn. rewrite G in Hn by (unfold group_primary; in_lit).
+      cbn [aget ol String.eqb Ascii.eqb Bool.eqb] in Hn.
+      destruct o1 as [j|]; [discriminate Hn|]. destruct (A1 eq_refl) as [X Y].
+      cbn [In] in Ha. destruct Ha as [<-|[<-|[]]]; assumption.
+    + intros al0 Ha Hn. rewrite G in Hn by (unfold group_primary; in_lit). discriminate Hn.
+Qed.
+
+(** contents steps *)
+Definition contents_ok (K : Kinds.kind) (ct : list (string * gv)) : Prop :=
+  NoDup (map fst ct) /\ vals_stable ct /\ map_kind ct = Some K.
+
+Lemma mj_contents_eq : forall ct, mj_contents ct = JObj (sort_keys (jmap ct)).
+Proof. reflexivity. Qed.
+
+Lemma contents_fix : forall ct, vals_stable ct ->
+  mj_contents (gmap (sort_keys (jmap ct))) = mj_contents ct.
+Proof.
+  intros ct Vs. rewrite !mj_contents_eq. f_equal.
+  unfold jmap at 1, gmap. rewrite map_map. cbn [fst snd].
+  rewrite (sort_keys_map (fun j => gv_json (gv_of_json j)) (sort_keys (jmap ct))), sort_keys_idem.
+  rewrite <- (sort_keys_map (fun j => gv_json (gv_of_json j)) (jmap ct)). f_equal.
+  unfold jmap. rewrite map_map. cbn [fst snd]. apply map_ext_in. intros [k v] Hin. cbn [fst snd].
+  f_equal. apply val_stable_fix. unfold vals_stable in Vs. rewrite Forall_forall in Vs. apply (Vs (k, v) Hin).
+Qed.
+
+Lemma contents_map_kind : forall K ct, contents_ok K ct ->
+  map_kind (gmap (sort_keys (jmap ct))) = Some K.
+Proof.
+  intros K ct (Nd & Vs & MK). unfold map_kind in *.
+  rewrite aget_gmap, aget_sort_keys by (rewrite keys_jmap; exact Nd).
+  unfold jmap at 1. rewrite aget_map.
+  destruct (aget "type" ct) as [v|]; cbn [option_map].
+  - destruct v; try discriminate MK. exact MK.
+  - rewrite <- MK. f_equal. unfold kind_by_keys. apply by_keys_ext. intros y.
+    rewrite keys_gmap, sort_keys_in, keys_jmap. reflexivity.
+Qed.
+
+Lemma contents_nonempty : forall K ct, contents_ok K ct -> (forall e, K <> KUnknown e) -> ct <> [].
+Proof.
+  intros K ct (_ & _ & MK) HK E. subst ct. unfold map_kind in MK. cbn in MK. inversion MK. eapply HK. eauto.
+Qed.
+
+Lemma reread_nonempty : forall ct, ct <> [] -> gmap (sort_keys (jmap ct)) <> [].
+Proof.
+  intros ct H E. apply (f_equal (@length _)) in E. unfold gmap, jmap in E.
+  rewrite map_length, sort_keys_length, map_length in E. destruct ct; [congruence|discriminate E].
+Qed.
+
+(* a value that is again an unknown step when re-read *)
+Definition unknown_again (g : gv) : Prop :=
+  match g with
+  | GStr s => kind_of_scalar s <> KWait /\ kind_of_scalar s <> KInput
+  | GMap m => exists e, map_kind m = Some (KUnknown e)
+  | _ => False
+  end.
+
+Definition alias_free (k : string) (rem : list (string * gv)) : Prop :=
+  k = "" -> ~ In "id" (map fst rem) /\ ~ In "identifier" (map fst rem).
+
+Fixpoint step_fix_ok (s : step) : Prop :=
+  match s with
+  | SCommand c => cmd_ok c /\ type_selects KCommand (cs_rem c)
+  | SWait sc ct => sc <> "" \/ ct = [] \/ contents_ok KWait ct
+  | SInput sc ct => sc <> "" \/ contents_ok KInput ct
+  | STrigger ct => contents_ok KTrigger ct
+  | SGroup k g ss rem =>
+      rem_ok group_primary rem /\ alias_free k rem /\ group_selects rem /\
+      (fix all (l : list step) : Prop := match l with [] => True | x :: r => step_fix_ok x /\ all r end) ss
+  | SUnknown c => val_stable c /\ unknown_again (gv_of_json (gv_json c))
+  end.
+
+Lemma step_fix_ok_group : forall k g ss rem,
+  step_fix_ok (SGroup k g ss rem) <->
+  rem_ok group_primary rem /\ alias_free k rem /\ group_selects rem /\ Forall step_fix_ok ss.
+Proof.
+  intros k g ss rem. cbn [step_fix_ok].
+  assert (E : (fix all (l : list step) : Prop := match l with [] => True | x :: r => step_fix_ok x /\ all r end) ss
+              <-> Forall step_fix_ok ss).
+  { induction ss as [|x r IH]; [split; intros; [constructor|exact I]|].
+    rewrite IH. split; [intros [A B]; constructor; assumption|intros H; inversion H; subst; split; assumption]. }
+  rewrite E. reflexivity.
+Qed.
+
+Section step_induction.
+  Variable P : step -> Prop.
+  Hypothesis HC : forall c, P (SCommand c).
+  Hypothesis HW : forall sc ct, P (SWait sc ct).
+  Hypothesis HI : forall sc ct, P (SInput sc ct).
+  Hypothesis HT : forall ct, P (STrigger ct).
+  Hypothesis HG : forall k g ss rem, Forall P ss -> P (SGroup k g ss rem).
+  Hypothesis HU : forall c, P (SUnknown c).
+  Fixpoint step_ind' (s : step) : P s :=
+    match s with
+    | SCommand c => HC c
+    | SWait sc ct => HW sc ct
+    | SInput sc ct => HI sc ct
+    | STrigger ct => HT ct
+    | SGroup k g ss rem =>
+        HG k g ss rem ((fix go (l : list step) : Forall P l :=
+                          match l with [] => Forall_nil _ | x :: r => Forall_cons x (step_ind' x) (go r) end) ss)
+    | SUnknown c => HU c
+    end.
+End step_induction.
+
+Lemma scalar_roundtrip : forall sc f, sc <> "" ->
+  exists s' w, unm_step (S f) (GStr sc) = Ok s' w /\ mj_step s' = JStr sc.
+Proof.
+  intros sc f H. rewrite unm_step_S. cbn [step_body].
+  assert (N : negb (String.eqb sc "") = true).
+  { destruct (String.eqb_spec sc ""); [contradiction|reflexivity]. }
+  destruct (kind_of_scalar sc); eexists; eexists; (split; [reflexivity|]); cbn [mj_step gv_json]; try rewrite N; reflexivity.
+Qed.
+
+Lemma steps_mapM_roundtrip : forall f ss,
+  Forall (fun s => exists s' w, unm_step f (gv_of_json (mj_step s)) = Ok s' w /\ mj_step s' = mj_step s) ss ->
+  exists ss' w, mapM (unm_step f) (map gv_of_json (map mj_step ss)) = Ok ss' w /\ map mj_step ss' = map mj_step ss.
+Proof.
+  intros f ss H. induction H as [|x r (x' & w1 & E1 & E2) Hr (r' & w2 & E3 & E4)].
+  - exists [], 0. split; reflexivity.
+  - exists (x' :: r'), (w1 + (w2 + 0)). cbn [map mapM]. rewrite E1, E3. split; [reflexivity|].
+    rewrite E2, E4. reflexivity.
+Qed.
+
+Lemma depth_str : forall s, gv_depth (GStr s) = 1.
+Proof. reflexivity. Qed.
+
+Lemma group_field_dec : forall p g,
+  field "Group" p = Some (gv_of_json (match g with Some x => JStr x | None => JNull end)) ->
+  match field "Group" p with
+  | Some GNull => ret None
+  | Some v => do s <- unm_string v; ret (Some s)
+  | None => ret None
+  end = Ok g 0.
+Proof. intros p g H. rewrite H. destruct g; reflexivity. Qed.
+
+Theorem step_roundtrip : forall s, step_fix_ok s ->
+  forall f, gv_depth (gv_of_json (mj_step s)) <= f ->
+  exists s' w, unm_step f (gv_of_json (mj_step s)) = Ok s' w /\ mj_step s' = mj_step s.
+Proof.
+  induction s using step_ind'; intros OK f Hf.
+  - (* command *)
+    destruct f as [|f]; [pose proof (depth_pos (gv_of_json (mj_step (SCommand c)))); lia|].
+    destruct OK as [CO T]. cbn [mj_step].
+    assert (EQ : gv_of_json (mj_command c) = GMap (gmap (members (mj_command c)))) by reflexivity.
+    rewrite EQ, unm_step_map_kind, (cmd_map_kind c CO T). cbn [typed_body].
+    destruct (command_roundtrip c CO) as (c' & E1 & E2). rewrite E1.
+    exists (SCommand c'), 0. split; [reflexivity|]. cbn [mj_step]. exact E2.
+  - (* wait *)
+    destruct f as [|f]; [pose proof (depth_pos (gv_of_json (mj_step (SWait sc ct)))); lia|].
+    cbn [mj_step]. destruct (String.eqb_spec sc "") as [E|N]; cbn [negb].
+    + subst sc. destruct OK as [OK|[OK|OK]]; [congruence| |].
+      * subst ct. apply (scalar_roundtrip "wait" f). discriminate.
+      * pose proof (contents_nonempty _ _ OK) as NE.
+        destruct ct as [|x r] eqn:ECt; [exfalso; apply NE; [intros e; discriminate|reflexivity]|]. rewrite <- ECt in *.
+        rewrite mj_contents_eq, gv_of_json_obj, unm_step_map_kind, (contents_map_kind _ _ OK). cbn [typed_body].
+        eexists. eexists. split; [reflexivity|]. cbn [mj_step String.eqb negb].
+        pose proof (reread_nonempty ct) as RN.
+        destruct (gmap (sort_keys (jmap ct))) eqn:EG; [exfalso; apply RN; [rewrite ECt; discriminate|reflexivity]|].
+        rewrite <- EG. rewrite contents_fix by apply OK. apply mj_contents_eq.
+    + apply (scalar_roundtrip sc f N).
+  - (* input *)
+    destruct f as [|f]; [pose proof (depth_pos (gv_of_json (mj_step (SInput sc ct)))); lia|].
+    cbn [mj_step]. destruct (String.eqb_spec sc "") as [E|N]; cbn [negb].
+    + subst sc. destruct OK as [OK|OK]; [congruence|].
+      rewrite mj_contents_eq, gv_of_json_obj, unm_step_map_kind, (contents_map_kind _ _ OK). cbn [typed_body].
+      eexists. eexists. split; [reflexivity|]. cbn [mj_step String.eqb negb].
+      rewrite contents_fix by apply OK. apply mj_contents_eq.
+    + apply (scalar_roundtrip sc f N).
+  - (* trigger *)
+    destruct f as [|f]; [pose proof (depth_pos (gv_of_json (mj_step (STrigger ct)))); lia|].
+    cbn [step_fix_ok] in OK.
+    pose proof (contents_nonempty _ _ OK) as NE.
+    destruct ct as [|x r] eqn:ECt; [exfalso; apply NE; [intros e; discriminate|reflexivity]|]. rewrite <- ECt in *.
+    assert (EM : mj_step (STrigger ct) = mj_contents ct) by (rewrite ECt; reflexivity).
+    rewrite EM, mj_contents_eq, gv_of_json_obj, unm_step_map_kind, (contents_map_kind _ _ OK). cbn [typed_body].
+    eexists. eexists. split; [reflexivity|].
+    pose proof (reread_nonempty ct) as RN. cbn [mj_step].
+    destruct (gmap (sort_keys (jmap ct))) eqn:EG; [exfalso; apply RN; [rewrite ECt; discriminate|reflexivity]|].
+    rewrite <- EG. rewrite contents_fix by apply OK. apply mj_contents_eq.
+  - (* group *)
+    apply step_fix_ok_group in OK. destruct OK as (R & AF & GS & FS).
+    rewrite mj_group_ol in *. rewrite inline_friendly_members, gv_of_json_obj in Hf |- *.
+    destruct f as [|f]; [cbn [gv_depth] in Hf; lia|].
+    rewrite unm_step_map_kind, (group_map_kind k g ss rem R GS). cbn [typed_body]. unfold group_body. cbv zeta.
+    assert (A1 : str_opt k = None -> ~ In "id" (map fst rem) /\ ~ In "identifier" (map fst rem)).
+    { unfold str_opt. destruct (String.eqb_spec k ""); [intros _; apply AF; assumption|discriminate]. }
+    pose proof (grp_reobj (str_opt k) (match g with Some x => JStr x | None => JNull end)
+                  (JArr (map mj_step ss)) rem R A1) as X.
+    cbv zeta in X. fold (group_ol k g ss) in X. destruct X as (F1 & F2 & F3 & GSt & FL).
+    set (m := gmap (members (inline_friendly (compact (group_ol k g ss)) rem))) in *.
+    set (p := partition_keys struct_GroupStep m) in *.
+    rewrite (opt_str_field _ _ _ F1), bind_ret_l.
+    rewrite (group_field_dec p g F2), bind_ret_l.
+    rewrite (opt_field_some _ _ _ _ _ F3). rewrite gv_of_json_arr.
+    (* fuel *)
+    assert (D1 : gv_depth (GSeq (map gv_of_json (map mj_step ss))) < gv_depth (GMap m)).
+    { apply (depth_in_map m "steps"). apply aget_some_in. rewrite GSt. reflexivity. }
+    destruct f as [|f]; [pose proof (depth_pos (GSeq (map gv_of_json (map mj_step ss)))); lia|].
+    rewrite unm_steps_S.
+    assert (FR : Forall (fun s => exists s' w, unm_step f (gv_of_json (mj_step s)) = Ok s' w /\ mj_step s' = mj_step s) ss).
+    { rewrite Forall_forall in H, FS |- *. intros s Hs. apply (H s Hs (FS s Hs)).
+      assert (D2 : gv_depth (gv_of_json (mj_step s)) < gv_depth (GSeq (map gv_of_json (map mj_step ss)))).
+      { apply depth_in_seq. apply in_map. apply in_map. exact Hs. }
+      lia. }
+    destruct (steps_mapM_roundtrip f ss FR) as (ss' & w & E1 & E2). rewrite E1.
+    unfold bind, ret. eexists. eexists. split; [reflexivity|].
+    rewrite mj_group_ol.
+    assert (EO : group_ol k g ss' = group_ol k g ss) by (unfold group_ol; rewrite E2; reflexivity).
+    rewrite EO. exact FL.
+  - (* unknown *)
+    destruct f as [|f]; [pose proof (depth_pos (gv_of_json (mj_step (SUnknown c)))); lia|].
+    destruct OK as [VS UA]. cbn [mj_step].
+    destruct (gv_of_json (gv_json c)) as [| | | |s0| | |m|] eqn:EG; try (exfalso; exact UA).
+    + destruct UA as [U1 U2]. exists (SUnknown (GStr s0)), 1. rewrite unm_step_S. cbn [step_body].
+      split; [destruct (kind_of_scalar s0); try reflexivity; congruence|].
+      cbn [mj_step]. rewrite <- EG. apply val_stable_fix. exact VS.
+    + destruct UA as [e MK]. exists (SUnknown (GMap m)), 1. rewrite unm_step_map_kind, MK.
+      split; [reflexivity|]. cbn [mj_step]. rewrite <- EG. apply val_stable_fix. exact VS.
+Qed.
+
+(** ------------------------------------------------------------------ *)
+(** * 11. The pipeline: the normal form is a fixpoint *)
+
+Definition pipeline_primary : list string := ["steps"; "env"].
+
+Definition pipeline_fix_ok (p : pipeline) : Prop :=
+  Forall step_fix_ok (pp_steps p) /\ rem_ok pipeline_primary (pp_rem p).
+
+Definition pp_ol (p : pipeline) : list (string * option json) :=
+  [("steps", Some (JArr (map mj_step (pp_steps p)))); ("env", option_map mj_env_block (pp_env p))].
+
+Lemma mj_pipeline_ol : forall p, mj_pipeline p = inline_friendly (compact (pp_ol p)) (pp_rem p).
+Proof. intros p. unfold mj_pipeline, pp_ol. destruct (pp_env p); reflexivity. Qed.
+
+Lemma pp_reobj : forall j1 o2 rem, rem_ok pipeline_primary rem ->
+  let ol := [("steps", Some j1); ("env", o2)] in
+  let m := gmap (members (inline_friendly (compact ol) rem)) in
+  let p := partition_keys struct_Pipeline m in
+  field "Steps" p = Some (gv_of_json j1) /\ field "Env" p = option_map gv_of_json o2 /\
+  aget "steps" m = Some (gv_of_json j1) /\
+  inline_friendly (compact ol) (leftover p) = inline_friendly (compact ol) rem.
+Proof.
+  intros j1 o2 rem R ol m p.
+  assert (Nol : NoDup (map fst ol)) by (apply nodupb_sound; reflexivity).
+  unfold p. rewrite f_pp_steps, f_pp_env. cbn [first_key]. unfold m.
+  rewrite !(reobj_schema_get ol rem pipeline_primary) by (first [assumption|unfold pipeline_primary; in_lit]).
+  split; [reflexivity|]. split; [destruct o2; reflexivity|]. split; [reflexivity|].
+  apply (noalias_fix _ ol rem pipeline_primary); try assumption.
+  intros pk al Hin. rewrite kt_pipeline in Hin.
+  ktab_cases Hin; (split; [unfold pipeline_primary; in_lit|reflexivity]).
+Qed.
+
+Lemma env_block_roundtrip : forall e, unm_env_block (gv_of_json (mj_env_block e)) = Ok (Some e) 0.
+Proof.
+  intros e. unfold mj_env_block. rewrite gv_of_json_obj. cbn [unm_env_block].
+  unfold gmap. rewrite map_map. cbn [fst snd gv_of_json].
+  rewrite (mapM_map_ok0 _ _ (fun kv => kv)); [rewrite map_id, bind_ret_l; reflexivity|].
+  intros [k v] _. reflexivity.
+Qed.
+
+Lemma pp_steps_dec : forall p fuel v ss w,
+  field "Steps" p = Some v -> unm_steps fuel v = Ok ss w ->
+  match field "Steps" p with
+  | Some v => do x <- unm_steps fuel v; ret (Some x)
+  | None => ret None
+  end = Ok (Some ss) (w + 0).
+Proof. intros p fuel v ss w H E. rewrite H, E. reflexivity. Qed.
+
+(* MAIN *)
+Theorem reparse_fixpoint : forall p, pipeline_fix_ok p ->
+  exists p' w', reparse_json p = Ok p' w' /\ mj_pipeline p' = mj_pipeline p.
+Proof.
+  intros p (FS & R). unfold reparse_json. rewrite (mj_pipeline_ol p).
+  rewrite inline_friendly_members, gv_of_json_obj.
+  pose proof (pp_reobj (JArr (map mj_step (pp_steps p))) (option_map mj_env_block (pp_env p)) _ R) as X.
+  cbv zeta in X. fold (pp_ol p) in X. destruct X as (F1 & F2 & GSt & FL).
+  set (m := gmap (members (inline_friendly (compact (pp_ol p)) (pp_rem p)))) in *.
+  unfold parse_doc, parse. cbv zeta.
+  set (P := partition_keys struct_Pipeline m) in *.
+  set (d := gv_depth (GMap m)).
+  assert (D1 : gv_depth (GSeq (map gv_of_json (map mj_step (pp_steps p)))) < d).
+  { apply (depth_in_map m "steps"). apply aget_some_in. rewrite GSt. reflexivity. }
+  assert (FR : Forall (fun s => exists s' w, unm_step d (gv_of_json (mj_step s)) = Ok s' w /\ mj_step s' = mj_step s)
+                      (pp_steps p)).
+  { rewrite Forall_forall in FS |- *. intros s Hs. apply (step_roundtrip s (FS s Hs)).
+    assert (D2 : gv_depth (gv_of_json (mj_step s)) < gv_depth (GSeq (map gv_of_json (map mj_step (pp_steps p))))).
+    { apply depth_in_seq. apply in_map. apply in_map. exact Hs. }
+    lia. }
+  destruct (steps_mapM_roundtrip d _ FR) as (ss' & w & E1 & E2).
+  assert (ES : unm_steps (S d) (gv_of_json (JArr (map mj_step (pp_steps p)))) = Ok ss' w).
+  { rewrite gv_of_json_arr, unm_steps_S. exact E1. }
+  rewrite (pp_steps_dec P (S d) _ ss' w F1 ES).
+  assert (EE : opt_field "Env" P None unm_env_block = Ok (pp_env p) 0).
+  { destruct (pp_env p) as [e|]; cbn [option_map] in F2.
+    - rewrite (opt_field_some _ _ _ _ _ F2). apply env_block_roundtrip.
+    - rewrite (opt_field_none _ _ _ _ F2). reflexivity. }
+  unfold bind at 1. rewrite EE, bind_ret_l. unfold ret.
+  eexists. eexists. split; [reflexivity|].
+  rewrite mj_pipeline_ol. cbn [pp_rem].
+  match goal with |- inline_friendly (compact ?o) _ = _ => assert (EO : o = pp_ol p) end.
+  { unfold pp_ol. cbn [pp_steps pp_env]. rewrite E2. reflexivity. }
+  rewrite EO. exact FL.
+Qed.
+
+(** the excluded class is real: an empty key is omitted, the surviving alias is promoted on re-parse *)
+Example empty_primary_alias_counterexample :
+  exists p p' w, reparse_json p = Ok p' w /\ mj_pipeline p' <> mj_pipeline p.
+Proof.
+  set (p := mkPipeline [SCommand (mkCmd "" "" "c" [] [] None None None [("id", GStr "x")])] None [] false).
+  exists p. remember (reparse_json p) as r eqn:Er. vm_compute in Er.
+  rewrite Er. eexists. eexists. split; [reflexivity|]. vm_compute. discriminate.
+Qed.
+
+(** ------------------------------------------------------------------ *)
+(** * 12. What Parse produces satisfies the side condition *)
+
+(* a decoded YAML document: ordered maps only, distinct keys, stable float tokens,
+   non-empty timestamp tokens *)
+Fixpoint gv_wf (g : gv) : Prop :=
+  match g with
+  | GFloat j _ => num_stable j
+  | GTime j => j <> ""
+  | GSeq l => (fix go (l : list gv) : Prop := match l with [] => True | x :: r => gv_wf x /\ go r end) l
+  | GMap l => NoDup (map fst l) /\
+              (fix go (l : list (string * gv)) : Prop :=
+                 match l with [] => True | kv :: r => gv_wf (snd kv) /\ go r end) l
+  | GUMap _ => False
+  | _ => True
+  end.
+Definition doc_ok (g : gv) : Prop := gv_wf g.
+
+Lemma gv_wf_seq : forall l, gv_wf (GSeq l) <-> Forall gv_wf l.
+Proof.
+  induction l as [|x r IH]; [split; intros; [constructor|exact I]|].
+  change (gv_wf (GSeq (x :: r))) with (gv_wf x /\ gv_wf (GSeq r)). rewrite IH. split.
+  - intros [A B]. constructor; assumption.
+  - intros H. inversion H; subst. split; assumption.
+Qed.
+Lemma gv_wf_map : forall l, gv_wf (GMap l) <-> NoDup (map fst l) /\ Forall (fun kv => gv_wf (snd kv)) l.
+Proof.
+  intros l. cbn [gv_wf].
+  assert (E : (fix go (l : list (string * gv)) : Prop :=
+                 match l with [] => True | kv :: r => gv_wf (snd kv) /\ go r end) l
+              <-> Forall (fun kv => gv_wf (snd kv)) l).
+  { induction l as [|x r IH]; [split; intros; [constructor|exact I]|].
+    rewrite IH. split; [intros [A B]; constructor; assumption|intros H; inversion H; subst; split; assumption]. }
+  rewrite E. reflexivity.
+Qed.
+
+Lemma gv_wf_in : forall m k v, gv_wf (GMap m) -> In (k, v) m -> gv_wf v.
+Proof. intros m k v H I. apply gv_wf_map in H. destruct H as [_ H]. rewrite Forall_forall in H. apply (H (k, v) I). Qed.
+
+Lemma gv_wf_stable : forall g, gv_wf g -> val_stable g.
+Proof.
+  induction g using gv_ind'; intros W; try exact I.
+  - apply num_stable_int.
+  - exact W.
+  - apply val_stable_seq. apply gv_wf_seq in W. rewrite Forall_forall in *. auto.
+  - apply val_stable_map. apply gv_wf_map in W. destruct W as [_ W]. unfold vals_stable. rewrite Forall_forall in *. auto.
+  - destruct W.
+Qed.
+
+Lemma gv_wf_skip : forall g, gv_wf g -> skip_ok g.
+Proof. intros g W. split; [apply gv_wf_stable; exact W|]. destruct g; try exact I. exact W. Qed.
+
+Lemma gv_wf_tmr : forall g, gv_wf g -> no_gmap (to_map_recursive g) /\ val_stable (to_map_recursive g).
+Proof.
+  induction g using gv_ind'; intros W; try (split; [exact I|apply gv_wf_stable; exact W]).
+  - cbn [to_map_recursive]. apply gv_wf_seq in W. split.
+    + apply no_gmap_seq. rewrite Forall_map. rewrite Forall_forall in *. intros x Hx. apply H; auto.
+    + apply val_stable_seq. rewrite Forall_map. rewrite Forall_forall in *. intros x Hx. apply H; auto.
+  - cbn [to_map_recursive]. apply gv_wf_map in W. destruct W as [_ W]. split.
+    + apply no_gmap_umap. rewrite Forall_map. cbn [snd]. rewrite Forall_forall in *. intros x Hx. apply H; auto.
+    + apply val_stable_umap. unfold vals_stable. rewrite Forall_map. cbn [snd].
+      rewrite Forall_forall in *. intros x Hx. apply H; auto.
+  - destruct W.
+Qed.
+
+Lemma vals_stable_wf : forall m, gv_wf (GMap m) -> vals_stable m.
+Proof.
+  intros m W. apply gv_wf_map in W. destruct W as [_ W]. unfold vals_stable.
+  eapply Forall_impl; [|exact W]. intros kv. apply gv_wf_stable.
+Qed.
+
+Lemma gv_wf_leftover : forall fields m, gv_wf (GMap m) -> gv_wf (GMap (leftover (partition_keys fields m))).
+Proof.
+  intros fields m W. apply gv_wf_map in W. destruct W as [N F]. apply gv_wf_map. split.
+  - apply leftover_nodup. exact N.
+  - rewrite Forall_forall in *. intros kv Hkv. apply F. eapply leftover_incl. exact Hkv.
+Qed.
+
+Lemma gv_wf_field : forall name fields m v,
+  gv_wf (GMap m) -> field name (partition_keys fields m) = Some v -> gv_wf v.
+Proof. intros name fields m v W F. apply field_in in F. destruct F as [k F]. eapply gv_wf_in; eassumption. Qed.
+
+(* a primary key never stays in the leftover *)
+Lemma primary_not_leftover : forall fields m pk al,
+  In (pk, al) (ktab fields) -> ~ In pk (map fst (leftover (partition_keys fields m))).
+Proof.
+  intros fields m pk al Hin I. unfold ktab in Hin. apply in_map_iff in Hin.
+  destruct Hin as (r & E & Hr). inversion E; subst pk al. clear E.
+  apply keyed_In in Hr. destruct Hr as [Hr Hc].
+  apply in_map_iff in I. destruct I as ([k v] & Ek & I). cbn [fst] in Ek. subst k.
+  apply leftover_sublist in I. destruct I as [Im Hn]. apply Hn.
+  assert (G : exists v', aget (primary_key r) m = Some v').
+  { destruct (aget (primary_key r) m) eqn:G; [eauto|].
+    exfalso. apply (in_map fst) in Im. revert Im. apply (aget_none_iff). exact G. }
+  destruct G as [v' G].
+  assert (L : field_lookup r m = Some (primary_key r, v')) by (unfold field_lookup; rewrite G; reflexivity).
+  pose proof (assigned_complete fields m r _ _ Hr Hc L) as A.
+  unfold DecodeProofs.consumed. apply in_map_iff. exists (r, primary_key r, v'). split; [reflexivity|exact A].
+Qed.
+
+Lemma leftover_rem_ok : forall fields m schema,
+  gv_wf (GMap m) -> (forall k, In k schema -> exists al, In (k, al) (ktab fields)) ->
+  rem_ok schema (leftover (partition_keys fields m)).
+Proof.
+  intros fields m schema W HS. split; [|split].
+  - apply leftover_nodup. apply gv_wf_map in W. apply W.
+  - intros k Hk. destruct (HS k Hk) as [al Hal]. eapply primary_not_leftover. exact Hal.
+  - apply vals_stable_wf. apply gv_wf_leftover. exact W.
+Qed.
+
+Lemma rem_ok_nil : forall schema, rem_ok schema [].
+Proof. intros. split; [constructor|split; [intros k _ []|constructor]]. Qed.
+
+Lemma all_mapM_P : forall {T U} (Q : U -> Prop) (f : T -> res U) l,
+  (forall x, In x l -> res_all Q (f x)) -> res_all (Forall Q) (mapM f l).
+Proof.
+  intros T U Q f l. induction l as [|x r IH]; intros H; cbn [mapM]; [constructor|].
+  apply all_bind with (P := Q); [apply H; left; reflexivity|intros y Hy].
+  apply all_bind with (P := Forall Q); [apply IH; intros z Hz; apply H; right; exact Hz|intros ys Hys].
+  apply all_ret. constructor; assumption.
+Qed.
+
+Ltac all_err := match goal with |- res_all _ Err => exact I end.
+Ltac skipb := apply all_bind with (P := fun _ => True); [apply all_True | intros ? _].
+
+(** plugins *)
+Definition plugin_pre (p : plugin) : Prop := no_gmap (pl_config p) /\ val_stable (pl_config p).
+
+Lemma wf_plugins_of_map : forall m, gv_wf (GMap m) -> Forall plugin_pre (plugins_of_map m).
+Proof.
+  intros m W. unfold plugins_of_map. rewrite Forall_map. rewrite Forall_forall. intros [k v] Hin.
+  unfold plugin_pre. cbn [pl_config snd]. apply gv_wf_tmr. eapply gv_wf_in; eassumption.
+Qed.
+
+Lemma wf_unm_plugins : forall g, gv_wf g -> res_all (Forall plugin_pre) (unm_plugins g).
+Proof.
+  intros g W. unfold unm_plugins. destruct g; try all_err.
+  - constructor.
+  - apply all_bind with (P := Forall (Forall plugin_pre)).
+    + apply all_mapM_P. intros x Hx. apply gv_wf_seq in W. rewrite Forall_forall in W. specialize (W x Hx).
+      destruct x; try all_err.
+      * apply all_ret. constructor; [|constructor]. split; exact I.
+      * apply all_ret. apply wf_plugins_of_map. exact W.
+    + intros ps Hps. apply all_ret. apply Forall_concat. exact Hps.
+  - apply all_ret. apply wf_plugins_of_map. exact W.
+Qed.
+
+(** matrix *)
+Definition adj_pre (a : option madj) : Prop :=
+  match a with Some a => skip_ok (ma_skip a) /\ rem_ok adj_schema (ma_rem a) | None => True end.
+Definition matrix_pre (m : matrix) : Prop :=
+  setup_fix_ok (mx_setup m) /\ Forall adj_pre (mx_adj m) /\ rem_ok matrix_schema (mx_rem m).
+
+Lemma wf_unm_adj : forall g, gv_wf g -> res_all adj_pre (unm_adj g).
+Proof.
+  intros g W. unfold unm_adj. destruct g; try all_err; [exact I|].
+  cbv zeta. skipb. apply all_ret. cbn [adj_pre ma_skip ma_rem]. split.
+  - destruct (field "Skip" (partition_keys struct_MatrixAdjustment l)) as [v|] eqn:F.
+    + apply gv_wf_skip. eapply gv_wf_field; eassumption.
+    + split; exact I.
+  - apply leftover_rem_ok; [exact W|]. intros k Hk. rewrite kt_adj. unfold adj_schema in Hk. cbn [In] in Hk.
+    destruct Hk as [<-|[<-|[]]]; eexists; in_lit.
+Qed.
+
+Lemma wf_unm_adjs : forall g, gv_wf g -> res_all (Forall adj_pre) (unm_adjs g).
+Proof.
+  intros g W. unfold unm_adjs. destruct g; try all_err; [constructor|].
+  apply all_mapM_P. intros x Hx. apply wf_unm_adj. apply gv_wf_seq in W. rewrite Forall_forall in W. auto.
+Qed.
+
+Lemma wf_unm_setup : forall g, res_all setup_fix_ok (unm_setup g).
+Proof.
+  intros g. unfold unm_setup. destruct g; try all_err; [exact I| |].
+  - skipb. apply all_ret. cbn [setup_fix_ok]. constructor; [discriminate|constructor].
+  - apply all_bind with (P := Forall (fun kv : string * option (list string) => snd kv <> None)).
+    + apply all_mapM_P. intros x _. skipb. apply all_ret. discriminate.
+    + intros su Hsu. apply all_ret. exact Hsu.
+Qed.
+
+Lemma wf_unm_matrix : forall g, gv_wf g ->
+  res_all (fun o => match o with Some m => matrix_pre m | None => True end) (unm_matrix g).
+Proof.
+  intros g W. unfold unm_matrix. destruct g; try all_err; [exact I| |].
+  - skipb. apply all_ret. split; [|split].
+    + cbn [mx_setup setup_fix_ok]. constructor; [discriminate|constructor].
+    + constructor.
+    + apply rem_ok_nil.
+  - cbv zeta. apply all_bind with (P := setup_fix_ok).
+    { destruct (field "Setup" (partition_keys struct_Matrix l)); [apply wf_unm_setup|exact I]. }
+    intros su Hsu. apply all_bind with (P := Forall adj_pre).
+    { apply all_opt_field; [constructor|]. intros v F. apply wf_unm_adjs. eapply gv_wf_field; eassumption. }
+    intros ad Had. apply all_ret. split; [exact Hsu|split; [exact Had|]]. cbn [mx_rem].
+    apply leftover_rem_ok; [exact W|]. intros k Hk. rewrite kt_matrix. unfold matrix_schema in Hk. cbn [In] in Hk.
+    destruct Hk as [<-|[<-|[]]]; eexists; in_lit.
+Qed.
+
+Lemma wf_unm_cache : forall g, gv_wf g ->
+  res_all (fun o => match o with Some c => cache_fix_ok c | None => True end) (unm_cache g).
+Proof.
+  intros g W. unfold unm_cache. destruct g; try all_err; [exact I| | | |].
+  - apply all_ret. right. apply rem_ok_nil.
+  - apply all_ret. right. apply rem_ok_nil.
+  - skipb. apply all_ret. right. apply rem_ok_nil.
+  - cbv zeta. skipb. skipb. skipb. skipb. apply all_ret. right. cbn [ca_rem].
+    apply leftover_rem_ok; [exact W|]. intros k Hk. rewrite kt_cache. unfold cache_primary in Hk. cbn [In] in Hk.
+    destruct Hk as [<-|[<-|[<-|[<-|[]]]]]; eexists; in_lit.
+Qed.
+
+(** command steps *)
+Definition cmd_pre (c : command_step) : Prop :=
+  rem_ok cmd_primary (cs_rem c) /\ Forall plugin_pre (cs_plugins c) /\
+  match cs_matrix c with Some m => matrix_pre m | None => True end /\
+  match cs_cache c with Some x => cache_fix_ok x | None => True end.
+
+Lemma wf_unm_command : forall m, gv_wf (GMap m) -> res_all cmd_pre (unm_command m).
+Proof.
+  intros m W. unfold unm_command. cbv zeta.
+  set (outer := partition_keys struct_CommandStep_UnmarshalOrdered_anon0 m).
+  assert (Wo : gv_wf (GMap (leftover outer))) by (apply gv_wf_leftover; exact W).
+  set (p := partition_keys struct_CommandStep (leftover outer)).
+  skipb. skipb. skipb. skipb.
+  apply all_bind with (P := Forall plugin_pre).
+  { apply all_opt_field; [constructor|]. intros v F. apply wf_unm_plugins. eapply gv_wf_field; eassumption. }
+  intros pl Hpl. skipb. skipb.
+  apply all_bind with (P := fun o => match o with Some m => matrix_pre m | None => True end).
+  { apply all_opt_field; [exact I|]. intros v F. apply wf_unm_matrix. eapply gv_wf_field; eassumption. }
+  intros mx Hmx.
+  apply all_bind with (P := fun o => match o with Some c => cache_fix_ok c | None => True end).
+  { apply all_opt_field; [exact I|]. intros v F. apply wf_unm_cache. eapply gv_wf_field; eassumption. }
+  intros ca Hca. apply all_ret.
+  unfold cmd_pre. cbn [cs_plugins cs_rem cs_matrix cs_cache].
+  split; [|split; [exact Hpl|split; [exact Hmx|exact Hca]]].
+  split; [|split].
+  - apply leftover_nodup. apply gv_wf_map in Wo. apply Wo.
+  - intros k Hk I. unfold cmd_primary in Hk. cbn [In] in Hk.
+    destruct Hk as [<-|Hk].
+    + assert (I' : In "commands" (map fst (leftover outer))).
+      { apply in_map_iff in I. destruct I as (kv & E & I). apply leftover_incl in I.
+        apply in_map_iff. exists kv. split; assumption. }
+      revert I'. apply (primary_not_leftover _ m "commands" ["command"]). rewrite kt_outer. in_lit.
+    + revert I. unfold p.
+      repeat (destruct Hk as [<-|Hk];
+              [eapply primary_not_leftover; rewrite kt_cmd; in_lit|]). destruct Hk.
+  - apply vals_stable_wf. apply gv_wf_leftover. exact Wo.
+Qed.
+
+Lemma aget_leftover_free : forall fields m k,
+  (forall pk al, In (pk, al) (ktab fields) -> k <> pk /\ ~ In k al) ->
+  aget k (leftover (partition_keys fields m)) = aget k m.
+Proof.
+  intros fields m k H. rewrite aget_leftover.
+  destruct (existsb (String.eqb k) (DecodeProofs.consumed (partition_keys fields m))) eqn:E; [|reflexivity].
+  exfalso. apply existsb_eqb_In in E. apply consumed_ktab in E. destruct E as (pk & al & Hin & Hc).
+  destruct (H pk al Hin) as [N1 N2]. destruct Hc as [->|[_ Ha]]; [congruence|contradiction].
+Qed.
+
+Lemma cmd_rem_type : forall m c w, unm_command m = Ok c w -> aget "type" (cs_rem c) = aget "type" m.
+Proof.
+  intros m c w H. rewrite (unm_command_rem _ _ _ H).
+  rewrite aget_leftover_free, aget_leftover_free; [reflexivity| |].
+  - intros pk al X. rewrite kt_outer in X. ktab_cases X.
+    split; [discriminate|]. cbn [In]. intros [Y|[]]. discriminate Y.
+  - intros pk al X. rewrite kt_cmd in X.
+    ktab_cases X; (split; [discriminate|]); cbn [In]; intros Y;
+      repeat (destruct Y as [Y|Y]; [discriminate Y|]); exact Y.
+Qed.
+
+Lemma group_rem_type : forall m, aget "type" (leftover (partition_keys struct_GroupStep m)) = aget "type" m.
+Proof.
+  intros m. apply aget_leftover_free. intros pk al X. rewrite kt_group in X.
+  ktab_cases X; (split; [discriminate|]); cbn [In]; intros Y;
+    repeat (destruct Y as [Y|Y]; [discriminate Y|]); exact Y.
+Qed.
+
+Lemma keys_group_inv : forall keys, kind_by_keys keys = KGroup ->
+  forall k, In k earlier_keys -> ~ In k keys.
+Proof.
+  intros keys H k Hk I. unfold kind_by_keys, families in H. cbn [by_keys] in H.
+  destruct (existsb (fun x => Kinds.mem x keys) ["command"; "commands"; "plugins"]) eqn:B1; [discriminate H|].
+  destruct (existsb (fun x => Kinds.mem x keys) ["wait"; "waiter"]) eqn:B2; [discriminate H|].
+  destruct (existsb (fun x => Kinds.mem x keys) ["block"; "input"; "manual"]) eqn:B3; [discriminate H|].
+  destruct (existsb (fun x => Kinds.mem x keys) ["trigger"]) eqn:B4; [discriminate H|].
+  assert (X : forall fam, In k fam -> existsb (fun x => Kinds.mem x keys) fam = true).
+  { intros fam Hf. apply existsb_exists. exists k. split; [exact Hf|apply mem_true; exact I]. }
+  unfold earlier_keys in Hk. cbn [In] in Hk.
+  repeat (destruct Hk as [<-|Hk];
+          [first [rewrite X in B1 by in_lit; discriminate B1 | rewrite X in B2 by in_lit; discriminate B2
+                 |rewrite X in B3 by in_lit; discriminate B3 | rewrite X in B4 by in_lit; discriminate B4]|]).
+  destruct Hk.
+Qed.
+
+(** the classes the fixpoint theorem excludes, as predicates on the parsed pipeline *)
+Definition alias_local (s : step) : Prop :=
+  match s with
+  | SCommand c => alias_free (cs_key c) (cs_rem c) /\ (cs_label c = "" -> ~ In "name" (map fst (cs_rem c)))
+  | SGroup k _ _ rem => alias_free k rem
+  | _ => True
+  end.
+Definition source_canonical (p : plugin) : Prop :=
+  full_source (full_source (pl_source p)) = full_source (pl_source p).
+Definition sources_local (s : step) : Prop :=
+  match s with SCommand c => Forall source_canonical (cs_plugins c) | _ => True end.
+Definition adj_has_with (a : option madj) : Prop :=
+  match a with Some a => ma_with a <> None | None => True end.
+Definition with_local (s : step) : Prop :=
+  match s with
+  | SCommand c => match cs_matrix c with Some m => Forall adj_has_with (mx_adj m) | None => True end
+  | _ => True
+  end.
+Definition unknown_local (s : step) : Prop :=
+  match s with SUnknown c => unknown_again (gv_of_json (gv_json c)) | _ => True end.
+
+(* Q holds of the step and of every step nested in it *)
+Fixpoint steps_all (Q : step -> Prop) (s : step) : Prop :=
+  Q s /\
+  match s with
+  | SGroup _ _ ss _ =>
+      (fix all (l : list step) : Prop := match l with [] => True | x :: r => steps_all Q x /\ all r end) ss
+  | _ => True
+  end.
+Definition pipeline_all (Q : step -> Prop) (p : pipeline) : Prop := Forall (steps_all Q) (pp_steps p).
+
+(* no command/group step with an empty key (or command step with an empty label) next to a surviving alias *)
+Definition no_empty_primary_with_alias (p : pipeline) : Prop := pipeline_all alias_local p.
+(* every plugin source is a fixpoint of canonicalisation *)
+Definition plugin_sources_canonical (p : pipeline) : Prop := pipeline_all sources_local p.
+(* every matrix adjustment has a `with` *)
+Definition adjustments_have_with (p : pipeline) : Prop := pipeline_all with_local p.
+(* every unknown step is of unknown kind (not a typed step whose decode failed) *)
+Definition unknowns_stay_unknown (p : pipeline) : Prop := pipeline_all unknown_local p.
+
+Lemma steps_all_group : forall Q k g ss rem,
+  steps_all Q (SGroup k g ss rem) <-> Q (SGroup k g ss rem) /\ Forall (steps_all Q) ss.
+Proof.
+  intros Q k g ss rem. cbn [steps_all].
+  assert (E : (fix all (l : list step) : Prop := match l with [] => True | x :: r => steps_all Q x /\ all r end) ss
+              <-> Forall (steps_all Q) ss).
+  { induction ss as [|x r IH]; [split; intros; [constructor|exact I]|].
+    rewrite IH. split; [intros [A B]; constructor; assumption|intros H; inversion H; subst; split; assumption]. }
+  rewrite E. reflexivity.
+Qed.
+
+Lemma steps_all_head : forall Q s, steps_all Q s -> Q s.
+Proof. intros Q s H. destruct s; apply H. Qed.
+
+Lemma steps_all_and : forall Q1 Q2 s, steps_all Q1 s -> steps_all Q2 s -> steps_all (fun s => Q1 s /\ Q2 s) s.
+Proof.
+  intros Q1 Q2. induction s using step_ind'; intros H1 H2;
+    try (split; [split; [apply (steps_all_head _ _ H1)|apply (steps_all_head _ _ H2)]|exact I]).
+  apply steps_all_group in H1. apply steps_all_group in H2. apply steps_all_group.
+  destruct H1 as [A1 B1], H2 as [A2 B2]. split; [split; assumption|].
+  rewrite Forall_forall in *. intros x Hx. apply H; auto.
+Qed.
+
+Definition restr (s : step) : Prop :=
+  (alias_local s /\ sources_local s) /\ (with_local s /\ unknown_local s).
+
+Lemma cmd_from_pre : forall c, cmd_pre c -> restr (SCommand c) -> cmd_ok c.
+Proof.
+  intros c (R & HP & HM & HC) ((A & S) & (Wt & _)). cbn [alias_local sources_local with_local] in *.
+  destruct A as [A1 A2]. split; [exact R|]. split; [exact A1|]. split; [exact A2|]. split; [|split; [|exact HC]].
+  - rewrite Forall_forall in *. intros p Hp. destruct (HP p Hp) as [X Y]. split; [apply S; exact Hp|split; assumption].
+  - destruct (cs_matrix c) as [m|]; [|exact I]. destruct HM as (H1 & H2 & H3). split; [exact H1|split; [|exact H3]].
+    rewrite Forall_forall in *. intros a Ha. specialize (H2 a Ha). specialize (Wt a Ha).
+    destruct a as [a|]; [|exact I]. cbn [adj_pre adj_has_with adj_fix_ok] in *. destruct H2. auto.
+Qed.
+
+Lemma fix_mutual : forall f,
+  (forall g ss w, unm_steps f g = Ok ss w -> gv_wf g -> Forall (steps_all restr) ss -> Forall step_fix_ok ss) /\
+  (forall g s w, unm_step f g = Ok s w -> gv_wf g -> steps_all restr s -> step_fix_ok s).
+Proof.
+  induction f as [|f [IH1 IH2]]; [split; intros; discriminate|]. split.
+  - intros g ss w H W R. rewrite unm_steps_S in H. destruct g; try discriminate H.
+    + inversion H; subst. constructor.
+    + apply mapM_Forall2 in H. apply gv_wf_seq in W. clear w.
+      induction H as [|x y l ss' [w' Hxy] HF IH]; [constructor|].
+      inversion W; subst. inversion R; subst. constructor; [eapply IH2; eassumption|apply IH; assumption].
+  - intros g s w H W R. rewrite unm_step_S in H. apply step_body_inv in H.
+    pose proof (steps_all_head _ _ R) as RL.
+    assert (U : s = SUnknown g -> step_fix_ok s).
+    { intros ->. split; [apply gv_wf_stable; exact W|]. apply RL. }
+    assert (T : forall m K, g = GMap m -> map_kind m = Some K -> typed_shape (unm_steps f) m K s w -> step_fix_ok s).
+    { intros m K Hg MK Hs. subst g. pose proof W as W'. apply gv_wf_map in W'. destruct W' as [Nd _].
+      destruct Hs as [Hs ?|c HK Hc Hs ?|HK Hs ?|HK Hs ?|HK Hs ?|key gr ss HK Hs Hf].
+      - apply U. exact Hs.
+      - subst s K. cbn [step_fix_ok]. split.
+        + apply cmd_from_pre; [|exact RL]. exact (all_ok _ _ _ _ (wf_unm_command m W) Hc).
+        + unfold type_selects. rewrite (cmd_rem_type _ _ _ Hc). unfold map_kind in MK.
+          destruct (aget "type" m) as [[]|]; try discriminate MK; [|exact I]. congruence.
+      - subst s K. right. right. split; [exact Nd|split; [apply vals_stable_wf; exact W|exact MK]].
+      - subst s K. right. split; [exact Nd|split; [apply vals_stable_wf; exact W|exact MK]].
+      - subst s K. split; [exact Nd|split; [apply vals_stable_wf; exact W|exact MK]].
+      - subst s K. apply step_fix_ok_group. apply steps_all_group in R. destruct R as [_ RN].
+        split; [|split; [|split]].
+        + apply leftover_rem_ok; [exact W|]. intros k Hk. rewrite kt_group. unfold group_primary in Hk. cbn [In] in Hk.
+          destruct Hk as [<-|[<-|[<-|[]]]]; eexists; in_lit.
+        + apply RL.
+        + unfold group_selects. rewrite group_rem_type. unfold map_kind in MK.
+          destruct (aget "type" m) as [[]|]; try discriminate MK; [congruence|].
+          intros k Hk I. inversion MK as [MK']. apply (keys_group_inv _ MK' k Hk).
+          apply in_map_iff in I. destruct I as (kv & E & I). apply leftover_incl in I.
+          apply in_map_iff. exists kv. split; assumption.
+        + destruct (field "Steps" (partition_keys struct_GroupStep m)) as [v|] eqn:F.
+          * eapply IH1; [exact Hf| |exact RN]. eapply gv_wf_field; eassumption.
+          * destruct Hf as [-> _]. constructor. }
+    destruct H as [str Hg Hk Hs Hw|str Hg Hk Hs Hw|str Hg Hs Hw|m t Hg Ht Hs|m Hg Ht Hs].
+    + subst s. right. left. reflexivity.
+    + subst s. left. intros E. subst str. apply scalar_input_nonempty in Hk. discriminate Hk.
+    + apply U. exact Hs.
+    + eapply T; [exact Hg| |exact Hs]. unfold map_kind. rewrite Ht. reflexivity.
+    + eapply T; [exact Hg| |exact Hs]. unfold map_kind. rewrite Ht. reflexivity.
+Qed.
+
+Lemma parse_result_fix_ok_core : forall g p w,
+  parse_doc g = Ok p w -> doc_ok g -> pipeline_all restr p -> pipeline_fix_ok p.
+Proof.
+  intros g p w H W R. unfold parse_doc in H. apply parse_inv in H. unfold pipeline_all in R.
+  destruct H as [(l & ss & Hg & H & Hp)|(m & Hg & Hr & H)]; subst g.
+  - subst p. cbn [pp_steps] in R. split; cbn [pp_steps pp_rem]; [|apply rem_ok_nil].
+    eapply (proj1 (fix_mutual _)); eassumption.
+  - split.
+    + destruct (field "Steps" (partition_keys struct_Pipeline m)) as [v|] eqn:F.
+      * eapply (proj1 (fix_mutual _)); [exact H| |exact R]. eapply gv_wf_field; eassumption.
+      * destruct H as [-> _]. constructor.
+    + rewrite Hr. apply leftover_rem_ok; [exact W|]. intros k Hk. rewrite kt_pipeline.
+      unfold pipeline_primary in Hk. cbn [In] in Hk. destruct Hk as [<-|[<-|[]]]; eexists; in_lit.
+Qed.
+
+(* the side condition holds for what Parse produces from any well-formed document, outside the excluded classes *)
+Theorem parse_result_fix_ok : forall g p w,
+  parse_doc g = Ok p w -> doc_ok g ->
+  no_empty_primary_with_alias p -> plugin_sources_canonical p ->
+  adjustments_have_with p -> unknowns_stay_unknown p ->
+  pipeline_fix_ok p.
+Proof.
+  intros g p w H W R1 R2 R3 R4. eapply parse_result_fix_ok_core; [exact H|exact W|].
+  unfold no_empty_primary_with_alias, plugin_sources_canonical, adjustments_have_with, unknowns_stay_unknown,
+    pipeline_all in *.
+  rewrite Forall_forall in *. intros s Hs. unfold restr.
+  apply (steps_all_and (fun s => alias_local s /\ sources_local s) (fun s => with_local s /\ unknown_local s)).
+  - apply steps_all_and; auto.
+  - apply steps_all_and; auto.
+Qed.
+
+(* parse, marshal, re-parse, marshal: the second marshalling equals the first *)
+Corollary parse_marshal_reparse : forall g p w,
+  parse_doc g = Ok p w -> doc_ok g ->
+  no_empty_primary_with_alias p -> plugin_sources_canonical p ->
+  adjustments_have_with p -> unknowns_stay_unknown p ->
+  exists p' w', reparse_json p = Ok p' w' /\ mj_pipeline p' = mj_pipeline p.
+Proof. intros. apply reparse_fixpoint. eapply parse_result_fix_ok; eassumption. Qed.
+
+Print Assumptions reparse_fixpoint.
+Print Assumptions parse_marshal_reparse.
